@@ -980,7 +980,7 @@ static void gsig(struct ctx *cx, enum getter g, size_t cap, int clause_bit, cons
         *suppress = 1;              /* same attribute, same capacity, same clause: one root cause */
         return;
     }
-    snprintf(sig, sn, "C10/%s/%sgetter=%s/attrtype=%s/tp=%s", clause, detail, gname[g],
+    snprintf(sig, sn, "C10/%s/%sgetter=%s/on=%s/tp=%s", clause, detail, gname[g],
              cx->ref.ok ? tname(cx->ref.type) : "none", g_tpname);
 }
 
@@ -1503,7 +1503,8 @@ static void side_effect_check(struct ctx *cx, const char *what_set, const char *
     if (snap_diff(&cx->snap, &after, nm, sizeof nm, what, sizeof what)) {
         char cn[200];
         canon_name(nm, cn, sizeof cn);
-        snprintf(sig, sizeof sig, "C10/set-side-effect/attr=%s/changed=%s/tp=%s", cx->signame, cn, g_tpname);
+        snprintf(sig, sizeof sig, "C10/set-side-effect/attr=%s/changed=%s/tp=%s", cx->signame,
+                 strcmp(cn, cx->signame) ? cn : "itself", g_tpname);
         finding(cx, sig, "%s %s but changed the socket: %s", what_set, errtxt, what);
         snap_free(&cx->snap);
         cx->snap = after;
@@ -2009,6 +2010,9 @@ static void parse_crash(const char *txt, int status, char *kind, size_t kn)
             k++;
         const char *rw = strstr(txt, "READ of size") ? "-READ" : strstr(txt, "WRITE of size") ? "-WRITE" : "";
         snprintf(kind, kn, "asan:%.*s%s", (int)k, p, rw);
+        char *hb = strstr(kind, "heap-buffer-overflow");        /* keep signatures below the artefact name limit */
+        if (hb)
+            memmove(hb + 4, hb + 11, strlen(hb + 11) + 1);      /* -> heap-overflow */
         return;
     }
     if ((p = strstr(txt, "runtime error: ")) != NULL) {
@@ -2135,7 +2139,7 @@ static void do_group(struct ctx *proto, const struct name_ent *ne, long only_cel
             const char *lp = strstr(SH->desc, "len=");
             if (lp)
                 sscanf(lp, "len=%zu (natural size %zu)", &len, &nat);
-            snprintf(detail, sizeof detail, "type=%s/len%s/", t, len < nat ? "<size" : len == nat ? "=size" : ">size");
+            snprintf(detail, sizeof detail, "%s.%s/", t, len < nat ? "short" : len == nat ? "exact" : "long");
         }
         char sig[400];
         int about_name = cx.kind == NK_MALFORMED || cx.kind == NK_TOOLONG || cx.kind == NK_UNKNOWN || cx.kind == NK_ODD;
